@@ -6,6 +6,8 @@ COMMON_TRUST = [
 
 PROPS = {
     "C04": dict(
+        level_text="Theorems over all byte strings (no length bound) about a Gallina model of protocol.Read: never (nil,nil), exact framing, independence from bytes after the frame, errors never over-read, 1 MiB cap, allocation <= 3x frame for messages and for errors raised outside the bencode library; the library's allocate-before-read is refuted with a witness (known finding). The model is tied to the code on every run by decoding ~2000 generated frames (every id x length 0..20 x exact/truncated/over-long, big frames, structured and hostile bencode, random cuts) with protocol.Read and with the model inside Coq and comparing message, bytes consumed, error class and allocation.",
+        level_note="Trusted: Coq kernel + vm_compute; Go harness and generators; zeebo/bencode specified not verified; absence of panics observed not proved; allocation tied through TotalAlloc deltas with 8x+64KiB slack.",
         harness="wire", args=["-prop", "C04"], check_module="WireCheck",
         n_quick=600, n_thorough=12000,
         trusted=COMMON_TRUST + [
@@ -17,4 +19,37 @@ PROPS = {
             "absence of panics in protocol.Read is observed by the harness, not proved: the model has no panic path because reader.go performs no indexing or slicing",
         ],
     ),
+    "C06": dict(
+        level_text="encode_spec is an independent encoder written from the BEPs. Theorems: for every core message, bitfield, piece and lt_donthave with every in-range field value, decode(encode_spec m ++ rest) = m consuming exactly its bytes (c06_roundtrip_partial); any concatenation of round-tripping messages decodes as one stream to the same sequence, independent of cuts (c06_stream). On every run protocol.Write's bytes are compared byte for byte with encode_spec and read back through protocol.Read under 4 cut patterns for all 20 emit-able message types incl. the bencoded extension messages and foreign sub-ids.",
+        level_note="Round-trip of the three bencoded extension messages is established by the correspondence only (not yet a theorem). Trusted: Coq kernel + vm_compute, harness, zeebo/bencode encoder specified not verified.",
+        harness="wire", args=["-prop", "C06"], check_module="WireSpecCheck",
+        n_quick=250, n_thorough=6000,
+        trusted=COMMON_TRUST + [
+            "Model/WireSpec.v (encode_spec) is the independent codec: written from BEP 3/5/6/9/10/11, compared byte for byte with protocol.Write on every run",
+            "zeebo/bencode encoder/decoder specified, not verified",
+        ],
+        assumptions=[
+            "round-trip theorem is proved for the core messages, bitfield, piece and lt_donthave for all field values; for the three bencoded extension messages it is established by the correspondence (vm_compute on generated messages), see c06_roundtrip_partial",
+        ],
+    ),
+    "C13": dict(
+        level_text="Theorems over all byte strings about a Gallina model of ReadTorrent/MetadataComplete (incl. the bencode library's typed decoding and RawMessage capture): never panics (division by zero and negative make sizes are explicit panic results shown unreachable), every accepted torrent satisfies the decidable geometry predicate (positive 16 KiB-multiple piece length, contiguous non-negative files summing to the total, ceil(total/16KiB) in-flight slots, piece and hash tables of ceil(total/piece length) entries). Tie: ~1300 generated metainfo files (grammar-based, boundary numeric fields, hostile variants, mutations) run through tor.ReadTorrent and the model; raw info slice, geometry, trackers, web seeds compared; sha1(Info)=Hash and WriteTorrent->ReadTorrent identity checked on each accepted input.",
+        level_note="Info-hash and write/read identity clauses are checked by correspondence/harness, not yet theorems; ReadMagnet not modelled; net/url specified on generated shapes only.",
+        harness="torfile", args=["-prop", "C13"], check_module="TorfileCheck",
+        n_quick=1200, n_thorough=30000,
+        trusted=COMMON_TRUST + [
+            "zeebo/bencode decoder specified (Base/Bencode.v), incl. RawMessage capture; net/url specified only on the URL shapes the generator produces (control characters, leading colon, empty)",
+            "crypto/sha1: the harness itself checks sha1(t.Info) = t.Hash; the model returns the raw info slice",
+        ],
+        assumptions=[
+            "info-hash clause: the model's raw info slice is compared with Torrent.Info and checked to be a contiguous slice of the input; WriteTorrent/ReadTorrent identity (hash, tracker tiers, web seeds) is checked by the harness on every accepted input, not yet a theorem",
+            "ReadMagnet is not modelled yet",
+        ],
+    ),
 }
+
+# properties not claimed, each with a reason (kept current as checks are added)
+NOT_APPLICABLE = [
+    dict(property_id=p, reason="check not built yet in this round; planned (DESIGN.md section 6)")
+    for p in ["C%02d" % i for i in range(1, 21)] if p not in PROPS
+]
